@@ -112,6 +112,17 @@ ProbesM == <<W("/u/{id}", [id |-> "7q"]), W("/u/{id:\\d+}", [id |-> "77"]), W("/
              W("/u/{id:digit}", [id |-> "78"]), A("/u/7/x/x"), A("/u/"), A("/u/5/x"), A("/u/5/7"), A("/u/7a/8"), A("/"), A(""), A("*")>>
 MethodsM == <<"GET", "HEAD", "POST", "OPTIONS", "TRACE", "BOGUS">>
 
+\* ---------------- pool Y: TRACE as an ordinary method (no WithTrace) next to the configured TRACE handler (depth 3, unsampled)
+PatsY == {"/x", "/u/{id}"}
+HOpsY == {H(p, ms) : p \in PatsY, ms \in {<<"TRACE">>, <<"TRACE", "POST">>, G}}
+ROpsY == {Rm(p, ms) : p \in PatsY, ms \in {<<>>, <<"TRACE">>, P, <<"OPTIONS">>}}
+COpsY == {Cl("")}
+UOpsY == {}
+CfgsY == {Cfg(FALSE), Cfg(TRUE)}
+BasesY == {<<>>}
+ProbesY == <<W("/x", <<>>), W("/u/{id}", [id |-> "7q"]), A("/u/"), A("/zz"), A(""), A("*")>>
+MethodsY == <<"GET", "HEAD", "POST", "OPTIONS", "TRACE", "BOGUS">>
+
 \* ---------------- pool R: a surviving node loses all of its five children, one by one (every order, with repeats)
 PatsR == {"/a", "/b", "/c", "/d", "/e"}
 HOpsR == {H("/a", P)}
